@@ -92,13 +92,19 @@ PROPS = {
     "C09": {
         "level": "other",
         "design_ref": "DESIGN.md section 5, C09",
-        "summary": ("Static rules, context half: Resolver::check_stmt for comot / next / return is checked for every loop depth and "
+        "summary": ("Static rules, two halves.  CONTEXT (Kani): Resolver::check_stmt for comot / next / return is checked for every loop depth and "
                     "function context, and Resolver::check_function_body against its contract -- the body is checked with loop depth 0 "
                     "and inside a function whatever encloses the definition, and in_loop / current_function / current_owner / scope stacks "
-                    "are restored exactly (frame). AST nodes are concrete, resolver state symbolic."),
-        "not_covered": ("the operator/operand typing table inside check_expr (a single call of the 400-line check_expr with a symbolic "
-                        "operator does not terminate in CBMC), undeclared-name, arity, duplicate-function/parameter and reserved-name rules, "
-                        "type tracking across re-declarations, and acceptance of all well-formed programs."),
+                    "are restored exactly (frame); AST nodes concrete, resolver state symbolic.  OPERAND TYPING (Verus, the Expr::Binary and "
+                    "Expr::Unary arms of Resolver::check_expr and Resolver::infer_expr_type cut from src/resolver.rs on every run, ALL operators x "
+                    "ALL static operand types): a binary/unary expression over typed operands is rejected if and only if no runtime "
+                    "instantiation of its dynamically typed operands fits the operator (static_ok, proved equal to the existential lift of "
+                    "the evaluator's operator table rt_ok, the same table unit eval_ops proves the evaluator implements); the type given to an "
+                    "expression exists whenever the operands are acceptable, covers every type the evaluator can produce, and is exact when no "
+                    "operand is dynamic -- so a well-typed sub-expression never makes its parent rejected."),
+        "not_covered": ("undeclared-name, call-arity, duplicate-function/parameter and reserved-name rules, method/argument typing on statically "
+                        "typed receivers (`\"abc\".find(5)` is accepted statically and reported at run time), index and condition operand rules, "
+                        "type tracking across re-declarations, and the recursion of check_expr over sub-expressions (cut at the arm boundary)."),
         "trusted_base": [KANI_TRUST, OS_TRUST, "predeclare_block_functions used through a registration-only contract stub in the check_function_body harness (its HashSet code is outside CBMC's reach)"],
     },
     "C14": {
@@ -181,14 +187,20 @@ PROPS = {
     "C06": {
         "level": "other",
         "design_ref": "DESIGN.md section 5, C06",
-        "summary": ("No-crash, callee-level half: the built-ins an accepted program can reach with arbitrary arguments are panic-free -- "
-                    "tw::find / maximal_suffix / crit_period / replace verified by Verus for all inputs (bounds, overflow, termination), "
-                    "StringBuiltin::slice on every class of f64 bound -- and Resolver::check_function_body rejects comot/next that could "
-                    "reach the runtime's unreachable!() at a function boundary."),
-        "not_covered": ("the dynamic-type product over the evaluator's dispatch points (operators, conditions, indexes, methods): one call of "
-                        "the 1900-line evaluator with symbolic operand types is outside both verifiers' reach. Genuine defects there are "
-                        "known and demonstrated on the binary (DESIGN.md section 6, D4/D14: e.g. `shout(\"a\" add true)`, `\"abc\".find(5)`, "
-                        "`null or 5`, `do f(x) start return true and x end shout(f(5))` hit unreachable!()) but no obligation of this check decides them."),
+        "summary": ("No-crash, at the evaluator's value-type dispatch points and in the callees behind them.  DISPATCH (Verus, blocks and functions "
+                    "cut from src/runtime.rs on every run, for ALL runtime types of every operand/receiver/argument): the binary operator dispatch, "
+                    "`and`/`or`, unary operators, if/jasi conditions, the index receiver, eval_member_call, eval_string_member_call, "
+                    "eval_array_member_call, eval_array_member_call_mut, eval_process_command_call_mut and check_method_arity contain no reachable "
+                    "unreachable!/assert!/expect/slice-index panic: every ill-typed combination returns RuntimeErrorKind::TypeMismatch and every "
+                    "well-typed one the documented result type; the Builtin::arity tables that make `args.args[k]` in bounds are verified against the "
+                    "documented arities.  CALLEES: tw::find / maximal_suffix / crit_period / replace verified by Verus for all inputs (bounds, "
+                    "overflow, termination), StringBuiltin::slice on every class of f64 bound; Resolver::check_function_body rejects comot/next that "
+                    "could reach the runtime's unreachable!() at a function boundary."),
+        "not_covered": ("panic sites that do not depend on a value's runtime type and are justified by parser/resolver structure (a variable that "
+                        "exists, a callee that is a name or member, an index-assignment target shape, the global builtins' arity assert); allocation "
+                        "failure; native stack exhaustion (C08); the statements cut out of the dispatch arms (payload arithmetic and string building, "
+                        "listed per obligation as rewrites R12/R13).  The dispatch points were where defect D4 lived (~25 reachable panics, repaired by "
+                        "1ddff14 and 983d2ef)."),
         "trusted_base": [VERUS_TRUST, KANI_TRUST],
     },
 }
